@@ -275,6 +275,23 @@ CopyOps ==
    [a |-> "Merge", s |-> 2, t |-> 1, obj |-> "sum"],
    [a |-> "SetDirection", s |-> 2, dir |-> "min"],
    [a |-> "Enter", s |-> 1], [a |-> "Exit", s |-> 1]}
+\* analysis vocabulary: analyses (each called twice by the driver) after / between the edits that leave hidden
+\* state behind: a constraint added for good, an open or closed context, a changed objective
+AnalyzeOps ==
+  {[a |-> "Analyze", s |-> 1, kind |-> k, arg |-> 1] : k \in {"pfba", "optimize_min", "fva", "room", "minimal_medium", "find_blocked"}}
+  \cup {[a |-> "FixObjective", s |-> 1],
+        [a |-> "SetObjective", s |-> 1, form |-> 0, d |-> [x \in RxU |-> IF x = "r2" THEN 1 ELSE 0]],
+        [a |-> "SetBounds", s |-> 1, r |-> "r1", lo |-> 0, hi |-> 5],
+        [a |-> "Enter", s |-> 1], [a |-> "Exit", s |-> 1]}
+\* detached-object vocabulary: a reaction leaves the model, is edited, comes back -- inside nested contexts
+DetOps ==
+  {[a |-> "RemoveReactions", s |-> 1, rs |-> <<"r1">>, orphans |-> TRUE, form |-> 0],
+   [a |-> "RemoveReactions", s |-> 1, rs |-> <<"r1">>, orphans |-> FALSE, form |-> 1],
+   [a |-> "ReAddDetached", s |-> 1, r |-> "r1"],
+   [a |-> "DetachedSetBounds", s |-> 1, r |-> "r1", lo |-> 0, hi |-> 5],
+   [a |-> "RemoveGenes", s |-> 1, gs |-> <<"g1">>, rr |-> FALSE, form |-> 0],
+   [a |-> "RemoveMetabolites", s |-> 1, ms |-> <<"m1">>, destructive |-> FALSE, form |-> 0],
+   [a |-> "Enter", s |-> 1], [a |-> "Exit", s |-> 1]}
 FullOps ==
   IF FullSet = "mid" THEN
      BoundOps \cup {
@@ -288,6 +305,8 @@ FullOps ==
         [a |-> "SetRule", s |-> 1, r |-> "r1", rule |-> Or2(G("g2"), G("g4")), form |-> 0],
         [a |-> "RxnIAdd", s |-> 1, r |-> "r1", q |-> "r1"],
         [a |-> "SetObjective", s |-> 1, form |-> 0, d |-> [x \in RxU |-> IF x = "r2" THEN 1 ELSE 0]]} ELSE
+  IF FullSet = "analyze" THEN AnalyzeOps ELSE
+  IF FullSet = "det" THEN DetOps ELSE
   IF FullSet = "copy" THEN CopyOps ELSE
   IF FullSet = "io" THEN IoOps ELSE
   IF FullSet = "bounds" THEN BoundOps ELSE
@@ -320,7 +339,8 @@ FullOps ==
 \* (the copy is made INSIDE an open context of the original: leaving it must not touch the copy)
 FullPrefix == IF FullSet = "copy" THEN SeedOps(2, "glpk") \o <<[a |-> "Enter", s |-> 1],
                                                               [a |-> "Copy", s |-> 1, t |-> 2, kind |-> "copy"]>> ELSE
-              IF FullSet = "io" THEN SeedOps(1, "glpk") \o <<[a |-> "RoundTrip", s |-> 1, fmt |-> "json"]>>
+              IF FullSet = "io" THEN SeedOps(1, "glpk") \o <<[a |-> "RoundTrip", s |-> 1, fmt |-> "json"]>> ELSE
+              IF FullSet = "analyze" THEN SeedOps(1, "glpk")
               ELSE SeedOps(1, "glpk") \o <<[a |-> "Enter", s |-> 1]>>
 
 Init ==
